@@ -117,6 +117,19 @@ def symbolic_seq(ex, it, line):
 
 
 def run_for(ex, s, env):
+    k0 = ordinal(ex.fn, s)
+    spec0 = ex.contract.get("loops", {}).get(k0)
+    if spec0 is not None and "abstract" in spec0:
+        # ASSUMED abstraction of a loop the engine cannot follow (listed in the evidence): the
+        # loop only (re)computes the named local values and raises nothing
+        for name in spec0["abstract"]["havoc"]:
+            v = env.get(name)
+            if isinstance(v, Obj) and v.cls == "pyset":
+                env[name] = Obj("pyset", {"id": Z(ex.fresh(f"{name}.set", ex.S.Py))}, fresh="shallow")
+            elif v is not None:
+                env[name] = havoc_like(ex, v, name)
+        ex.ctx.notes.append(f"loop #{k0} (line {s.lineno}) abstracted: {spec0['abstract'].get('why', '')}")
+        return
     it = ex.ev(s.iter, env)
     items = concrete_items(ex, it)
     if items is not None:
